@@ -225,6 +225,18 @@ def run(ctx):
         ctx.ob("Q3", SPIM, "SPIMaster", f"{a.t} load on mosi_latch is not overridden", ok,
                "" if ok else f"`{a.t} <= {short(a.v, 40)}` takes effect only under {B.show(eff)}: a start request that coincides with "
                              f"another strobe leaves a stale bit pointer / word and the frame is shifted out wrong", a.line)
+    # ... and the load happens only when a transfer is accepted: mosi_latch is raised in IDLE, together with the move to START -- a start
+    # request that arrives while a frame is on the wire must not reload the word / bit pointer being shifted out
+    mlt = sp.find(domain="comb", target="mosi_latch")
+    go = [t for t in sp.trans if t.src == "IDLE" and t.dst != "IDLE"]
+    ctx.ob("Q3", SPIM, "SPIMaster", "mosi_latch:present", bool(mlt) and len(go) == 1, f"{len(mlt)} driver(s), {len(go)} exit(s) of IDLE", 0)
+    for a in mlt:
+        on = B.And(a.eff(), B.from_expr(a.value))
+        ok = bool(a.state) and a.state[1] == "IDLE" and len(go) == 1 and B.equivalent(on, go[0].eff())
+        ctx.ob("Q3", SPIM, "SPIMaster", "MOSI word / bit pointer loaded exactly when a transfer is accepted (IDLE -> START)", ok,
+               "" if ok else f"mosi_latch <= {a.v} {'in state ' + a.state[1] if a.state else 'outside the FSM'} under {B.show(a.eff())}: a start "
+                             f"request during START/RUN/STOP reloads mosi_data / mosi_sel in mid-frame and the rest of the frame restarts from "
+                             f"the MSB of the new word", a.line)
     mi = sp.find(domain="sync", target="miso_data")
     ok = len(mi) == 2 and all(q.IMP(a, B.A("clk_rise")) for a in mi) and \
         {a.v for a in mi} == {"Cat(pads.mosi, miso_data)", "Cat(pads.miso, miso_data)"}
